@@ -82,7 +82,8 @@ theorem nextFrame_unfragmented (r : Rd) (s s1 : Src) (cx : Ctx) (cb : Option Cal
 
 /-- the pong that answers ping `f` when the next mask to be drawn is `m` -/
 def pongFor (client : Bool) (f : WFrame) (m : Mask) : Bytes :=
-  rfcEncode (wireHeader client ⟨true, 0, opPong, false, Mask.zero, f.h.len⟩ m) ++ wirePayload client f.plain m
+  if f.h.len = 0 then frameHeaderOnly client opPong   -- a bare header (the client's carries the all-zero key)
+  else rfcEncode (wireHeader client ⟨true, 0, opPong, false, Mask.zero, f.h.len⟩ m) ++ wirePayload client f.plain m
 
 /-- **A ping in front of the message**: the loop answers it with exactly one pong carrying the identical payload
     and is idle again right behind the ping. -/
@@ -90,7 +91,7 @@ theorem loop_ping (state want : Nat) (errText : ProtoErr → Bytes) (inter : Cal
     (r0 : Rd) (s : Src) (cx : Ctx) (fuel : Nat) (f : WFrame) (rest : Bytes)
     (hi : Idle state r0) (he : EnvOk cx.env)
     (hst : state < 256) (hnf : stIs state stFragmented = false)
-    (hok : f.OK) (hping : f.h.op = opPing) (hfin : f.h.fin = true) (hlen : 0 < f.h.len ∧ f.h.len ≤ 125)
+    (hok : f.OK) (hping : f.h.op = opPing) (hfin : f.h.fin = true) (hlen125 : f.h.len ≤ 125)
     (hacc : checkHeader f.h state = none)
     (hb : s.bytes = f.enc ++ rest) (hwf : Bytes.WF s.bytes) (htame : Src.Tame s) :
     ∃ r1 s1 cx1, readData.loop want errText (stIs state stClient) inter (fuel + 1) r0 s cx
@@ -111,6 +112,29 @@ theorem loop_ping (state want : Nat) (errText : ProtoErr → Bytes) (inter : Cal
   have hnf1 : (enter r0 f.h).fragmented = false := by
     simp [enter, Rd.fragmented, hfin, hi.st, clear_not_fragmented state hst]
   have hnext := nextFrame_unfragmented r0 s s1 cx (some inter) f.h hrh haccept hi.ext hfr0
+  by_cases hz : f.h.len = 0
+  · -- an empty ping: nothing to read, a bare pong header in reply
+    have hw0 : f.wire = [] := List.length_eq_zero_iff.mp (by rw [hok.len]; exact hz)
+    have hwr := dst_write_ok cx.env.dst (frameHeaderOnly (stIs state stClient) opPong) he.no_fail
+    obtain ⟨e1, he1⟩ : ∃ e1 : Env, e1 = ⟨(cx.env.dst.write (frameHeaderOnly (stIs state stClient) opPong)).2, cx.env.masks⟩ := ⟨_, rfl⟩
+    obtain ⟨cx1, hcx1⟩ : ∃ cx1 : Ctx, cx1 = ⟨e1, cx.msgs, cx.events ++ [(f.h.op, [])]⟩ := ⟨_, rfl⟩
+    have hh2 : handleControl (stIs state stClient) f.h { chunks := [] } false cx.env errText = some (none, e1) := by
+      unfold handleControl handlePing
+      rw [if_pos hping, if_pos hz, he1]
+      simp [hwr]
+    have hidle0 : Idle state (enter r0 f.h) := by
+      refine ⟨?_, by simp [enter, hi.chk], by simp [enter, hi.ext], by simp [enter, hi.skip], by simp [enter, hi.maxF], by simp [enter, hi.u8]⟩
+      simp only [enter, hfin, if_true, hi.st]; exact clear_id state hst hnf
+    refine ⟨enter r0 f.h, s1, cx1, ?_, hidle0, by rw [hb1, hw0]; rfl, ht1, ⟨?_, ?_⟩, ?_, by rw [hcx1]⟩
+    · rw [readData.loop]
+      simp only [hnext, hctl, if_true]
+      unfold controlFrameHandler
+      simp only [hz, ne_eq, not_true_eq_false, false_and, not_false_eq_true, if_true, hh2]
+      rw [hcx1]; simp
+    · rw [hcx1, he1]; exact he.masks_wf
+    · rw [hcx1, he1]; simp [hwr]; exact he.no_fail
+    · rw [hcx1, he1]; simp [pongFor, hz, hwr]
+  have hlen : 0 < f.h.len ∧ f.h.len ≤ 125 := ⟨Nat.pos_of_ne_zero hz, hlen125⟩
   obtain ⟨chunks, r', s', hp, hfl, hb', ht', hcfg⟩ := pull_final_k (some inter) 32768 (by decide) (pullFuel s1) (enter r0 f.h) s1 cx []
     f.wire rest hin hnf1 (Or.inr (by simp [enter, hi.u8, Utf8Rd.valid]; rfl)) (by unfold pullFuel Src.fuel mu; omega)
   have hpl : plainOf (enter r0 f.h) f.wire = f.plain := by simp [plainOf, enter, WFrame.plain]; rfl
@@ -140,7 +164,7 @@ theorem loop_ping (state want : Nat) (errText : ProtoErr → Bytes) (inter : Cal
     simp only [hne, ne_eq, not_false_eq_true, hping, true_or, and_self, not_true_eq_false, if_false]
     simp only [hp, List.reverse_nil, List.nil_append]
     simp [rdErrOf, hh2]
-  · simp only [hw', pongFor, CtlSrc.bytes, hfl]
+  · simp only [hw', pongFor, if_neg hz, CtlSrc.bytes, hfl]
 
 /-- a pong in front of the loop: consumed, nothing written, idle again -/
 theorem loop_pong (state want : Nat) (errText : ProtoErr → Bytes) (inter : Callback)
@@ -219,7 +243,7 @@ structure GoodPing (state : Nat) (f : WFrame) : Prop where
   ok : f.OK
   op : f.h.op = opPing
   fin : f.h.fin = true
-  len : 0 < f.h.len ∧ f.h.len ≤ 125
+  len : f.h.len ≤ 125
   acc : checkHeader f.h state = none
 
 structure GoodPong (state : Nat) (f : WFrame) : Prop where
